@@ -134,9 +134,9 @@ theorem numeric_exact_float_to_float (v : Num) (t : NT) (hv : ∀ k i, v ≠ .in
     | f64 => simp [convertNumeric, Num.ty, Spec.convertNumeric]
     | f32 => simp [convertNumeric, Num.ty, Spec.convertNumeric]
 
-/-- the float→integer arm: Go's `int64(f)`/`float64(i64) != f` round trip accepts exactly the doubles that
+/-- the int64 path of the float→integer arm: Go's `int64(f)`/`float64(i64) != f` round trip accepts exactly the doubles that
     denote an integer in int64 range, and the integer it yields is that integer -/
-theorem float_to_int_core (x : FV) (k : IK) (hwf : WFf x)
+theorem float_to_int_signed_path (x : FV) (k : IK) (hwf : WFf x)
     (hdev : k.signed = false → ∀ i, Spec.exactInt? (.f64 x) = some i → ¬ ((2^63 : Int) ≤ i ∧ i ≤ k.hi)) :
     (if eqNum (ofInt (goInt64 x)) x then convertFromInt true (goInt64 x) (.i k) else (.rangeErr : Res Num)) =
     Spec.convertNumeric (.f64 x) (.i k) := by
@@ -197,9 +197,90 @@ theorem float_to_int_core (x : FV) (k : IK) (hwf : WFf x)
 
 theorem exactInt_f32_f64 (x : FV) : Spec.exactInt? (.f32 x) = Spec.exactInt? (.f64 x) := rfl
 
+theorem goUint64_nat (m en : Nat) (h : V false m en < 2^64) : goUint64 (.fin false m (en : Int)) = V false m en := by
+  have hta : truncAbs m (en : Int) = m * 2^en := by simp [truncAbs]
+  unfold goUint64
+  simp only [hta]
+  simp only [V, Bool.false_eq_true, if_false] at h ⊢
+  rw [if_pos h]
+
+/-- the float→integer arm of convertNumeric: integers in [2^63, 2^64) go through uint64, all other doubles
+    through the int64 round trip; together they accept exactly the integral doubles and yield that integer -/
+theorem float_to_int_core (x : FV) (k : IK) (hwf : WFf x) :
+    (if (le two63 x && lt x two64) = true then convertFromInt false (goUint64 x) (.i k)
+     else if eqNum (ofInt (goInt64 x)) x then convertFromInt true (goInt64 x) (.i k) else (.rangeErr : Res Num)) =
+    Spec.convertNumeric (.f64 x) (.i k) := by
+  have hhi := hi_le k
+  cases x with
+  | nan =>
+    have hc : (le two63 .nan && lt .nan two64) = false := by simp [le, lt, cmpReal, two63]
+    rw [hc]; simp only [Bool.false_eq_true, if_false]
+    exact float_to_int_signed_path .nan k hwf (by intro _ i hi; simp [Spec.exactInt?] at hi)
+  | inf s =>
+    have hc : (le two63 (.inf s) && lt (.inf s) two64) = false := by
+      cases s <;> simp [le, lt, cmpReal, two63, two64]
+    rw [hc]; simp only [Bool.false_eq_true, if_false]
+    exact float_to_int_signed_path (.inf s) k hwf (by intro _ i hi; simp [Spec.exactInt?] at hi)
+  | fin s m e =>
+    by_cases he : 0 ≤ e
+    · obtain ⟨en, rfl⟩ := Int.eq_ofNat_of_zero_le he
+      obtain ⟨c1, c2, _, _⟩ := cmp_big s m en
+      have hint : isIntegral m (en : Int) = true := by simp [isIntegral]
+      have hex : Spec.exactInt? (.f64 (.fin s m (en : Int))) = some (truncInt (.fin s m (en : Int))) := by
+        simp [Spec.exactInt?, hint]
+      rw [c1, c2]
+      by_cases hr : (2^63 : Int) ≤ truncInt (.fin s m (en : Int)) ∧ truncInt (.fin s m (en : Int)) < 2^64
+      · -- the uint64 path
+        have hcond : (decide ((2^63 : Int) ≤ truncInt (.fin s m (en : Int))) && decide (truncInt (.fin s m (en : Int)) < (2^64 : Int))) = true := by
+          rw [decide_eq_true hr.1, decide_eq_true hr.2]; rfl
+        rw [hcond, if_pos rfl]
+        have hs : s = false := by
+          cases s
+          · rfl
+          · exfalso
+            have := hr.1
+            rw [truncInt_nat] at this
+            simp only [V, if_true] at this
+            omega
+        subst hs
+        have hv := hr.2
+        rw [truncInt_nat] at hv hr
+        rw [goUint64_nat m en hv]
+        rw [convertFromInt_int false _ k (by simp; omega)]
+        simp only [Spec.convertNumeric, hex, truncInt_nat]
+      · have hcond : (decide ((2^63 : Int) ≤ truncInt (.fin s m (en : Int))) && decide (truncInt (.fin s m (en : Int)) < (2^64 : Int))) = false := by
+          by_cases h1 : (2^63 : Int) ≤ truncInt (.fin s m (en : Int))
+          · have h2 : ¬ (truncInt (.fin s m (en : Int)) < (2^64 : Int)) := fun h => hr ⟨h1, h⟩
+            rw [decide_eq_true h1, decide_eq_false h2]; rfl
+          · rw [decide_eq_false h1]; rfl
+        rw [hcond]; simp only [Bool.false_eq_true, if_false]
+        apply float_to_int_signed_path _ k hwf
+        intro _ i hi
+        rw [hex] at hi
+        cases hi
+        omega
+    · obtain ⟨d, rfl⟩ : ∃ d : Nat, e = -((d : Int) + 1) := ⟨(-e - 1).toNat, by omega⟩
+      have hm : m < 2^53 := by simpa [WFf] using hwf
+      rw [cmp_small s m d hm]; simp only [Bool.false_and, Bool.false_eq_true, if_false]
+      apply float_to_int_signed_path _ k hwf
+      intro _ i hi
+      have hneg : (-(-((d : Int) + 1))).toNat = d + 1 := by omega
+      have hnn : ¬ (-((d : Int) + 1) ≥ 0) := by omega
+      have hta : truncAbs m (-((d : Int) + 1)) = m / 2^(d+1) := by
+        unfold truncAbs; rw [if_neg hnn, hneg]
+      have hle : m / 2^(d+1) ≤ m := Nat.div_le_self _ _
+      simp only [Spec.exactInt?] at hi
+      split at hi
+      · cases hi
+        simp only [truncInt, hta]
+        generalize m / 2^(d+1) = a at *
+        cases s <;> simp <;> omega
+      · cases hi
+
 /-- **C16.numeric_exact.**  For every number Value (every Go payload kind, every double) and every numeric Go
-    parameter type, outside the three listed regions the call path (`convertNumeric`) delivers exactly the value
-    the property text demands or throws RangeError: no truncation, wrap or rounding for any width. -/
+    parameter type, outside the two listed regions (silent rounding into float32 / float64 parameters) the call
+    path (`convertNumeric`) delivers exactly the value the property text demands or throws RangeError: no
+    truncation, wrap or rounding for any integer width, and every representable integer is accepted. -/
 theorem numeric_exact (v : Num) (t : NT) (hwf : WF v) (hdev : devNum v t = []) :
     convertNumeric v t = Spec.convertNumeric v t := by
   cases v with
@@ -207,23 +288,14 @@ theorem numeric_exact (v : Num) (t : NT) (hwf : WF v) (hdev : devNum v t = []) :
   | f64 x =>
     cases t with
     | i k =>
-      have hd : k.signed = false → ∀ i, Spec.exactInt? (.f64 x) = some i → ¬ ((2^63 : Int) ≤ i ∧ i ≤ k.hi) := by
-        intro hs i hi hc
-        simp [devNum, Num.ty, hs, hi, hc] at hdev
-        omega
-      have := float_to_int_core x k hwf hd
+      have := float_to_int_core x k hwf
       simpa [convertNumeric, Num.ty] using this
     | f64 => exact numeric_exact_float_to_float _ _ (by intro k i h; cases h) (by intro k h; cases h) hdev
     | f32 => exact numeric_exact_float_to_float _ _ (by intro k i h; cases h) (by intro k h; cases h) hdev
   | f32 x =>
     cases t with
     | i k =>
-      have hd : k.signed = false → ∀ i, Spec.exactInt? (.f64 x) = some i → ¬ ((2^63 : Int) ≤ i ∧ i ≤ k.hi) := by
-        intro hs i hi hc
-        rw [← exactInt_f32_f64] at hi
-        simp [devNum, Num.ty, hs, hi, hc] at hdev
-        omega
-      have := float_to_int_core x k hwf hd
+      have := float_to_int_core x k hwf
       have hsp : Spec.convertNumeric (.f32 x) (.i k) = Spec.convertNumeric (.f64 x) (.i k) := rfl
       rw [hsp]
       simpa [convertNumeric, Num.ty] using this
@@ -294,8 +366,7 @@ theorem numeric_no_silent_change (v : Num) (t : NT) (r : Num) (hwf : WF v) (hdev
     with the right count the callee receives the element-wise conversions. -/
 theorem arity_fixed (L : Leaf) (ins : List GT) (args : List JV) :
     callWrapper L ⟨ins, false⟩ args =
-      if args.length ≠ ins.length then .rangeErr
-      else finishCall (deferredIn L args ins) (convArgs L args ins) := by
+      if args.length ≠ ins.length then .rangeErr else convArgs L args ins := by
   simp [callWrapper]
 
 /-- **C16.arity** (variadic signatures): fewer than the fixed parameters is a RangeError. -/
@@ -308,12 +379,10 @@ theorem arity_variadic (L : Leaf) (ins : List GT) (args : List JV) (h : args.len
 theorem variadic_shape (L : Leaf) (ins : List GT) (args : List JV) (h : ¬ args.length < ins.length - 1)
     (hk : (args.drop (ins.length - 1)).length ≠ 1) :
     callWrapper L ⟨ins, true⟩ args =
-      finishCall (deferredIn L (args.take (ins.length - 1)) (ins.take (ins.length - 1)) ||
-          (((args.drop (ins.length - 1)).length ≠ 1) && (args.drop (ins.length - 1)).any (fun a => deferredPanic L a (ins.getLastD .any))))
-      ((convArgs L (args.take (ins.length - 1)) (ins.take (ins.length - 1))).bind (fun fixed =>
-        (convAll L (args.drop (ins.length - 1)) (ins.getLastD .any)).map (fun gs => fixed ++ [.slice (GVs.ofList gs)]))) := by
+      (convArgs L (args.take (ins.length - 1)) (ins.take (ins.length - 1))).bind (fun fixed =>
+        (convAll L (args.drop (ins.length - 1)) (ins.getLastD .any)).map (fun gs => fixed ++ [.slice (GVs.ofList gs)])) := by
   simp only [callWrapper, h, if_false, Bool.true_eq_false, not_true_eq_false, not_false_eq_true, if_true]
-  congr 2
+  congr 1
   funext fixed
   cases hd : args.drop (ins.length - 1) with
   | nil => rfl
@@ -328,10 +397,8 @@ theorem variadic_last_is_slice (L : Leaf) (ins : List GT) (args : List JV) (a : 
     (h : ¬ args.length < ins.length - 1) (hd : args.drop (ins.length - 1) = [a])
     (hs : conv L a (.slice (ins.getLastD .any)) = .ok s) :
     callWrapper L ⟨ins, true⟩ args =
-      finishCall (deferredIn L (args.take (ins.length - 1)) (ins.take (ins.length - 1)))
-      ((convArgs L (args.take (ins.length - 1)) (ins.take (ins.length - 1))).bind (fun fixed => .ok (fixed ++ [s]))) := by
-  simp only [callWrapper, h, if_false, Bool.true_eq_false, not_true_eq_false, not_false_eq_true, if_true, hd, hs,
-    List.length_singleton, ne_eq, decide_false, Bool.false_and, Bool.or_false]
+      (convArgs L (args.take (ins.length - 1)) (ins.take (ins.length - 1))).bind (fun fixed => .ok (fixed ++ [s])) := by
+  simp only [callWrapper, h, if_false, Bool.true_eq_false, not_true_eq_false, not_false_eq_true, if_true, hd, hs]
 
 /-! ### containers: aliasing invariant of bridged slices -/
 
@@ -363,6 +430,7 @@ theorem step_keeps (S : StoreSem) (s : SliceSt) (op : SOp) (h : KeepsHeaders s.j
       · simp [h1, SliceSt.write]
       · simp [h1, h]
     all_goals simp
+  | jsSetLenNeg => simp [sliceStep]
   | jsSetLen n =>
     simp only [KeepsHeaders] at h
     simp [sliceStep, h]
@@ -494,7 +562,8 @@ theorem struct_lookup (t : GT) (name : Str) : fieldIndexByName t name = Spec.fie
   simp only [fieldIndexByName, Spec.fieldLookup]
   exact lookupT t.base name
 
-/-! ### kernel-checked witnesses: every deviation region is inhabited and the model really deviates there -/
+/-! ### kernel-checked witnesses: every remaining deviation region is inhabited and the model really deviates
+    there; inputs of repaired regions now meet the property text -/
 
 /-- 0.1 as a double -/
 def d0_1 : FV := .fin false 7205759403792794 (-56)
@@ -509,10 +578,9 @@ example : devNum (.int .i64 9007199254740993) .f64 = ["call_int_to_float_rounds"
     convertNumeric (.int .i64 9007199254740993) .f64 = .ok (.f64 (.fin false 4503599627370496 1)) ∧
     Spec.convertNumeric (.int .i64 9007199254740993) .f64 = .rangeErr := by decide
 
--- call_float_ge_2p63_to_uint_rejected: u64fn(2^63) throws although 2^63 is a uint64
-example : devNum (.f64 (.fin false 1 63)) (.i .u64) = ["call_float_ge_2p63_to_uint_rejected"] ∧
-    convertNumeric (.f64 (.fin false 1 63)) (.i .u64) = .rangeErr ∧
-    Spec.convertNumeric (.f64 (.fin false 1 63)) (.i .u64) = .ok (.int .u64 9223372036854775808) := by decide
+-- repaired: u64fn(2^63) now receives 2^63
+example : devNum (.f64 (.fin false 1 63)) (.i .u64) = [] ∧
+    convertNumeric (.f64 (.fin false 1 63)) (.i .u64) = .ok (.int .u64 9223372036854775808) := by decide
 
 /-- outcome class and integer payload of a result (GV has no decidable equality) -/
 def resKind : Res GV → Nat × Option Int
@@ -524,69 +592,38 @@ def resKind : Res GV → Nat × Option Int
 
 def intT : GT := .num (.i .int)
 
--- store_negative_fraction_truncates: s[0] = -1.5 on []int stores -1
-example : devStore (.num (.f64 (.fin true 3 (-1)))) intT = ["store_negative_fraction_truncates"] ∧
-    resKind (toReflectValue (.num (.f64 (.fin true 3 (-1)))) intT) = (0, some (-1)) ∧
-    resKind (Spec.convertCallParameter (.num (.f64 (.fin true 3 (-1)))) intT) = (1, none) := by decide
-
--- (fixed by bb377a4, former region store_error_is_go_panic) s[0] = 1.5 on []int now is a RangeError, as the property demands
-example : devStore (.num (.f64 (.fin false 3 (-1)))) intT = [] ∧
+-- repaired: s[0] = -1.5, 1.5, NaN, 2^63 on []int are RangeErrors, as on the call path
+example : resKind (toReflectValue (.num (.f64 (.fin true 3 (-1)))) intT) = (1, none) ∧
     resKind (toReflectValue (.num (.f64 (.fin false 3 (-1)))) intT) = (1, none) ∧
-    resKind (Spec.convertCallParameter (.num (.f64 (.fin false 3 (-1)))) intT) = (1, none) := by decide
+    resKind (toReflectValue (.num (.f64 .nan)) intT) = (1, none) ∧
+    resKind (toReflectValue (.num (.f64 (.fin false 1 63))) intT) = (1, none) ∧
+    resKind (Spec.convertCallParameter (.num (.f64 (.fin false 1 63))) intT) = (1, none) ∧
+    devStore (.num (.f64 (.fin true 3 (-1)))) intT = [] := by decide
 
--- store_inf_to_f32_rejected: s[0] = Infinity on []float32 throws although Inf is a float32
-example : devStore (.num (.f64 (.inf false))) (.num .f32) = ["store_inf_to_f32_rejected"] ∧
-    resKind (toReflectValue (.num (.f64 (.inf false))) (.num .f32)) = (1, none) ∧
-    resKind (Spec.convertCallParameter (.num (.f64 (.inf false))) (.num .f32)) = (0, none) := by decide
-
--- store_fraction_guard_rejects_bool_string: s[0] = 1.5 on []bool throws RangeError
-example : devStore (.num (.f64 (.fin false 3 (-1)))) .bool = ["store_fraction_guard_rejects_bool_string"] ∧
-    resKind (toReflectValue (.num (.f64 (.fin false 3 (-1)))) .bool) = (1, none) ∧
-    resKind (Spec.convertCallParameter (.num (.f64 (.fin false 3 (-1)))) .bool) = (0, none) := by decide
-
--- store_nan_becomes_zero
-example : devStore (.num (.f64 .nan)) intT = ["store_nan_becomes_zero"] ∧
-    resKind (toReflectValue (.num (.f64 .nan)) intT) = (0, some 0) ∧
-    resKind (Spec.convertCallParameter (.num (.f64 .nan)) intT) = (1, none) := by decide
-
--- store_2p63_wraps: s[0] = 2^63 on []int stores MinInt64
-example : devStore (.num (.f64 (.fin false 1 63))) intT = ["store_2p63_wraps"] ∧
-    resKind (toReflectValue (.num (.f64 (.fin false 1 63))) intT) = (0, some (-9223372036854775808)) ∧
-    resKind (Spec.convertCallParameter (.num (.f64 (.fin false 1 63))) intT) = (1, none) := by decide
+-- repaired: Infinity into []float32, 1.5 into []bool, undefined into []interface{} are stored
+example : resKind (toReflectValue (.num (.f64 (.inf false))) (.num .f32)) = (0, none) ∧
+    resKind (toReflectValue (.num (.f64 (.fin false 3 (-1)))) .bool) = (0, none) ∧
+    resKind (toReflectValue .undef .any) = (0, none) := by decide
 
 -- store_coerces_non_number: s[0] = true stores 1, the call path throws TypeError
 example : devStore (.bool true) intT = ["store_coerces_non_number"] ∧
     resKind (toReflectValue (.bool true) intT) = (0, some 1) ∧
     resKind (Spec.convertCallParameter (.bool true) intT) = (2, none) := by decide
 
--- store_float32_value_go_panic
-example : devStore (.num (.f32 one)) intT = ["store_float32_value_go_panic"] ∧
-    resKind (toReflectValue (.num (.f32 one)) intT) = (3, none) ∧
-    resKind (Spec.convertCallParameter (.num (.f32 one)) intT) = (0, some 1) := by decide
-
 -- store_int_via_float_rounds: s[0] = 9007199254740993 on []int64 stores 9007199254740992
 example : devStore (.num (.int .i64 9007199254740993)) (.num (.i .i64)) = ["store_int_via_float_rounds"] ∧
     resKind (toReflectValue (.num (.int .i64 9007199254740993)) (.num (.i .i64))) = (0, some 9007199254740992) ∧
     resKind (Spec.convertCallParameter (.num (.int .i64 9007199254740993)) (.num (.i .i64))) = (0, some 9007199254740993) := by decide
 
--- store_nil_into_interface_go_panic
-example : devStore .undef .any = ["store_nil_into_interface_go_panic"] ∧
-    resKind (toReflectValue .undef .any) = (3, none) ∧ resKind (Spec.convertCallParameter .undef .any) = (0, none) := by decide
+-- store_float_rounds: s[0] = 0.1 on []float32
+example : devStore (.num (.f64 d0_1)) (.num .f32) = ["store_float_rounds"] ∧
+    resKind (toReflectValue (.num (.f64 d0_1)) (.num .f32)) = (0, none) ∧
+    resKind (Spec.convertCallParameter (.num (.f64 d0_1)) (.num .f32)) = (1, none) := by decide
 
--- call_array_hole_becomes_zero: intSliceFn([1,,3])
-example : devConv (.arr (.cons (.num (.int .i64 1)) (.hole .nil))) (.slice intT) = ["call_array_hole_becomes_zero"] ∧
-    resKind (convertCallParameter (.arr (.cons (.num (.int .i64 1)) (.hole .nil))) (.slice intT)) = (0, none) ∧
-    resKind (Spec.convertCallParameter (.arr (.cons (.num (.int .i64 1)) (.hole .nil))) (.slice intT)) = (2, none) := by decide
-
--- call_pointer_to_interface_go_panic
-example : devConv (.num (.int .i64 5)) (.ptr .any) = ["call_pointer_to_interface_go_panic"] ∧
-    resKind (convertCallParameter (.num (.int .i64 5)) (.ptr .any)) = (3, none) ∧
-    resKind (Spec.convertCallParameter (.num (.int .i64 5)) (.ptr .any)) = (0, none) := by decide
-
--- call_number_to_string_gofmt: strFn(1000000*1) receives "1e+06"
-example : devConv (.num (.f64 (.fin false 1000000 0))) .str = ["call_number_to_string_gofmt"] ∧
-    goFmtV (.f64 (.fin false 1000000 0)) = some [49, 101, 43, 48, 54] ∧
-    jsNumToString (.f64 (.fin false 1000000 0)) = some [49, 48, 48, 48, 48, 48, 48] := by decide
+-- repaired: intSliceFn([1,,3]) is a TypeError like intSliceFn([1,undefined,3]); ptrAnyFn(5) is delivered
+example : devConv (.arr (.cons (.num (.int .i64 1)) (.hole .nil))) (.slice intT) = [] ∧
+    resKind (convertCallParameter (.arr (.cons (.num (.int .i64 1)) (.hole .nil))) (.slice intT)) = (2, none) ∧
+    resKind (convertCallParameter (.num (.int .i64 5)) (.ptr .any)) = (0, none) := by decide
 
 -- non-vacuity of numeric_exact: ordinary calls meet its hypotheses
 example : WF (.f64 (.fin false 5 0)) ∧ devNum (.f64 (.fin false 5 0)) (.i .i8) = [] ∧
@@ -614,101 +651,6 @@ theorem addDevs_nil (a b : List String) (h : addDevs a b = []) : a = [] ∧ b = 
     simp only [List.foldl] at h
     exact absurd h (foldl_addDev_ne_nil r _ (addDev_ne_nil a d))
 
-theorem finish_strict (l : List GV) (h : (exportArrayFinish true l).isGoPanic = false) :
-    exportArrayFinish false l = exportArrayFinish true l := by
-  unfold exportArrayFinish at h ⊢
-  cases hl : l.getLast? with
-  | none => rfl
-  | some last =>
-    simp only [hl] at h ⊢
-    generalize (!(l.all fun e => decide (kindTriple e = kindTriple (l.headD GV.anyNil))) || (kindTriple (l.headD GV.anyNil)).1 == 20 || (kindTriple (l.headD GV.anyNil)).1 == 0) = c1 at h ⊢
-    generalize (l.all fun e => decide (gvType e = gvType last)) = c2 at h ⊢
-    cases c1 <;> cases c2 <;> simp_all [Res.isGoPanic]
-
-theorem bind_notPanic {α β} (r : Res α) (f : α → Res β) (h : (r.bind f).isGoPanic = false) : r.isGoPanic = false := by
-  cases r <;> simp_all [Res.bind, Res.isGoPanic]
-
-mutual
-theorem exportV_strict (v : JV) (h : (exportV true v).isGoPanic = false) : exportV false v = exportV true v := by
-  cases v with
-  | undef => rfl
-  | null => rfl
-  | bool b => rfl
-  | num n => rfl
-  | str s => rfl
-  | arr es =>
-    simp only [exportV] at h ⊢
-    have h1 := bind_notPanic _ _ h
-    rw [exportElems_strict es h1]
-    cases hr : exportElems true es with
-    | ok l => rw [hr] at h; simp only [Res.bind] at h ⊢; exact finish_strict l h
-    | rangeErr => rfl
-    | typeErr => rfl
-    | goPanic => rfl
-  | obj ps =>
-    simp only [exportV] at h ⊢
-    have h1 : (exportProps true ps).isGoPanic = false := bind_notPanic _ _ h
-    rw [exportProps_strict ps h1]
-theorem exportElems_strict (es : JVs) (h : (exportElems true es).isGoPanic = false) :
-    exportElems false es = exportElems true es := by
-  cases es with
-  | nil => rfl
-  | hole r => simp only [exportElems] at h ⊢; exact exportElems_strict r h
-  | cons v r =>
-    simp only [exportElems] at h ⊢
-    have h1 := bind_notPanic _ _ h
-    rw [exportV_strict v h1]
-    cases hr : exportV true v with
-    | ok a =>
-      rw [hr] at h; simp only [Res.bind] at h ⊢
-      have h2 : (exportElems true r).isGoPanic = false := bind_notPanic _ _ h
-      rw [exportElems_strict r h2]
-    | rangeErr => rfl
-    | typeErr => rfl
-    | goPanic => rfl
-theorem exportProps_strict (ps : JPs) (h : (exportProps true ps).isGoPanic = false) :
-    exportProps false ps = exportProps true ps := by
-  cases ps with
-  | nil => rfl
-  | cons k v r =>
-    cases v with
-    | undef => simp only [exportProps] at h ⊢; exact exportProps_strict r h
-    | null =>
-      simp only [exportProps, exportV, Res.bind] at h ⊢
-      rw [exportProps_strict r (bind_notPanic _ _ h)]
-    | bool b =>
-      simp only [exportProps, exportV, Res.bind] at h ⊢
-      rw [exportProps_strict r (bind_notPanic _ _ h)]
-    | num n =>
-      simp only [exportProps, exportV, Res.bind] at h ⊢
-      rw [exportProps_strict r (bind_notPanic _ _ h)]
-    | str s =>
-      simp only [exportProps, exportV, Res.bind] at h ⊢
-      rw [exportProps_strict r (bind_notPanic _ _ h)]
-    | arr es =>
-      simp only [exportProps] at h ⊢
-      have h1 := bind_notPanic _ _ h
-      rw [exportV_strict (.arr es) h1]
-      cases hr : exportV true (.arr es) with
-      | ok a =>
-        rw [hr] at h; simp only [Res.bind] at h ⊢
-        rw [exportProps_strict r (bind_notPanic _ _ h)]
-      | rangeErr => rfl
-      | typeErr => rfl
-      | goPanic => rfl
-    | obj qs =>
-      simp only [exportProps] at h ⊢
-      have h1 := bind_notPanic _ _ h
-      rw [exportV_strict (.obj qs) h1]
-      cases hr : exportV true (.obj qs) with
-      | ok a =>
-        rw [hr] at h; simp only [Res.bind] at h ⊢
-        rw [exportProps_strict r (bind_notPanic _ _ h)]
-      | rangeErr => rfl
-      | typeErr => rfl
-      | goPanic => rfl
-end
-
 mutual
 /-- every number inside a JavaScript value is a well-formed Go payload -/
 def WFV : JV → Prop
@@ -725,27 +667,6 @@ def WFPs : JPs → Prop
   | .cons _ v r => WFV v ∧ WFPs r
 end
 
-theorem ptrWrap_congr (t : GT) (v : JV) (r : Res GV)
-    (hc : ¬ (t.depth > 0 ∧ t.base.isAny ∧ (!v.isNullish) = true)) :
-    ptrWrap modelLeaf t v r = ptrWrap Spec.leaf t v r := by
-  unfold ptrWrap
-  by_cases h1 : t.depth > 0 <;> by_cases h2 : t.base.isAny = true <;> by_cases h3 : v.isNullish = true <;>
-    simp_all [modelLeaf, Spec.leaf]
-
-theorem hole_congr (tt : GT) (hz : zeroLike .undef tt = true) :
-    (Res.ok tt.zero : Res GV) = ptrWrap Spec.leaf tt .undef (convUndefB tt.base) := by
-  unfold zeroLike at hz
-  unfold ptrWrap
-  cases tt with
-  | ptr e => simp [GT.depth, JV.isNullish, GT.zero]
-  | any => simp [GT.depth, GT.base, convUndefB, GT.zero, Res.map, Res.bind, wrapPtr, GT.isAny, Spec.leaf]
-  | bool => simp [GT.depth, GT.base, convUndefB, GT.zero, Res.map, Res.bind, wrapPtr, GT.isAny]
-  | num t => simp [GT.depth, GT.base] at hz
-  | str => simp [GT.depth, GT.base] at hz
-  | slice e => simp [GT.depth, GT.base] at hz
-  | map e => simp [GT.depth, GT.base] at hz
-  | struct fs => simp [GT.depth, GT.base] at hz
-
 /-- the field-type function the driver's struct walk uses -/
 def ftOf (st : GT) (k : Str) : GT :=
   match fieldIndexByName st k with
@@ -754,96 +675,65 @@ def ftOf (st : GT) (k : Str) : GT :=
 
 mutual
 theorem convB_exact (v : JV) (t : GT) (hw : WFV v) (hd : devConv v t = []) :
-    convB modelLeaf v t.base = convB Spec.leaf v t.base ∧
-    ¬ (t.depth > 0 ∧ t.base.isAny ∧ (!v.isNullish) = true) := by
+    convB modelLeaf v t.base = convB Spec.leaf v t.base := by
   unfold devConv at hd
-  by_cases hc : t.depth > 0 ∧ t.base.isAny = true ∧ (!v.isNullish) = true
-  · simp [hc] at hd
-  · refine ⟨?_, hc⟩
-    simp only [hc, if_false] at hd
-    generalize t.base = b at hd ⊢
-    cases b with
-    | bool => unfold convB; rfl
-    | ptr e => unfold convB; rfl
-    | any =>
-      unfold convB
-      simp only [modelLeaf, Spec.leaf]
-      have hp : (exportV true v).isGoPanic = false := by
-        cases h : (exportV true v).isGoPanic
-        · rfl
-        · simp [isGoPanic, h] at hd
-      rw [exportV_strict v hp]
-    | num nt =>
-      unfold convB
-      cases v with
-      | num n =>
-        simp only [WFV] at hw
-        simp only at hd
-        simp only [modelLeaf, Spec.leaf, numeric_exact n nt hw hd]
-      | _ => rfl
-    | str =>
-      unfold convB
-      cases v with
-      | num n =>
-        simp only at hd
-        have : goFmtV n = jsNumToString n := by
-          by_cases h : goFmtV n = jsNumToString n
-          · exact h
-          · simp [h] at hd
-        simp only [modelLeaf, Spec.leaf, this]
-      | _ => rfl
-    | slice tt =>
-      unfold convB
-      cases v with
-      | arr es =>
-        simp only [WFV] at hw
-        simp only at hd
-        dsimp only
-        rw [convElems_exact es tt hw hd]
-      | _ => rfl
-    | map tt =>
-      unfold convB
-      cases v with
-      | obj ps =>
-        simp only [WFV] at hw
-        simp only at hd
-        dsimp only
-        rw [convProps_exact ps tt hw hd]
-      | arr es =>
-        simp only [WFV] at hw
-        simp only at hd
-        dsimp only
-        rw [convIndexed_exact es 0 tt hw hd]
-      | _ => rfl
-    | struct fs =>
-      unfold convB
-      cases v with
-      | obj ps =>
-        simp only [WFV] at hw
-        simp only at hd
-        exact convFields_exact ps (.struct fs) _ hw hd
-      | _ => rfl
+  generalize t.base = b at hd ⊢
+  cases b with
+  | bool => unfold convB; rfl
+  | ptr e => unfold convB; rfl
+  | str => unfold convB; rfl
+  | any => unfold convB; rfl
+  | num nt =>
+    unfold convB
+    cases v with
+    | num n =>
+      simp only [WFV] at hw
+      simp only at hd
+      simp only [modelLeaf, Spec.leaf, numeric_exact n nt hw hd]
+    | _ => rfl
+  | slice tt =>
+    unfold convB
+    cases v with
+    | arr es =>
+      simp only [WFV] at hw
+      simp only at hd
+      dsimp only
+      rw [convElems_exact es tt hw hd]
+    | _ => rfl
+  | map tt =>
+    unfold convB
+    cases v with
+    | obj ps =>
+      simp only [WFV] at hw
+      simp only at hd
+      dsimp only
+      rw [convProps_exact ps tt hw hd]
+    | arr es =>
+      simp only [WFV] at hw
+      simp only at hd
+      dsimp only
+      rw [convIndexed_exact es 0 tt hw hd]
+    | _ => rfl
+  | struct fs =>
+    unfold convB
+    cases v with
+    | obj ps =>
+      simp only [WFV] at hw
+      simp only at hd
+      exact convFields_exact ps (.struct fs) _ hw hd
+    | _ => rfl
 theorem conv_exact (v : JV) (t : GT) (hw : WFV v) (hd : devConv v t = []) :
-    ptrWrap modelLeaf t v (convB modelLeaf v t.base) = ptrWrap Spec.leaf t v (convB Spec.leaf v t.base) := by
-  obtain ⟨h1, h2⟩ := convB_exact v t hw hd
-  rw [h1]
-  exact ptrWrap_congr t v _ h2
+    ptrWrap t v (convB modelLeaf v t.base) = ptrWrap t v (convB Spec.leaf v t.base) := by
+  rw [convB_exact v t hw hd]
 theorem convElems_exact (es : JVs) (tt : GT) (hw : WFVs es) (hd : devElems es tt = []) :
     convElems modelLeaf es tt = convElems Spec.leaf es tt := by
   cases es with
   | nil => unfold convElems; rfl
   | hole r =>
     unfold devElems at hd
-    obtain ⟨h1, h2⟩ := addDevs_nil _ _ hd
     simp only [WFVs] at hw
-    have hz : zeroLike .undef tt = true := by
-      cases h : zeroLike .undef tt
-      · simp [h] at h1
-      · rfl
     unfold convElems
-    rw [convElems_exact r tt hw h2]
-    simp only [modelLeaf, Spec.leaf, Bool.false_eq_true, if_false, if_true]
-    rw [hole_congr tt hz]
+    rw [convElems_exact r tt hw hd]
     rfl
   | cons v r =>
     unfold devElems at hd
@@ -851,17 +741,17 @@ theorem convElems_exact (es : JVs) (tt : GT) (hw : WFVs es) (hd : devElems es tt
     simp only [WFVs] at hw
     unfold convElems
     rw [conv_exact v tt hw.1 h1, convElems_exact r tt hw.2 h2]
-theorem convIndexed_exact (es : JVs) (i : Nat) (tt : GT) (hw : WFVs es) (hd : devElemsNoHole es tt = []) :
+theorem convIndexed_exact (es : JVs) (i : Nat) (tt : GT) (hw : WFVs es) (hd : devElems es tt = []) :
     convIndexed modelLeaf es i tt = convIndexed Spec.leaf es i tt := by
   cases es with
   | nil => unfold convIndexed; rfl
   | hole r =>
-    unfold devElemsNoHole at hd
+    unfold devElems at hd
     simp only [WFVs] at hw
     unfold convIndexed
     exact convIndexed_exact r (i+1) tt hw hd
   | cons v r =>
-    unfold devElemsNoHole at hd
+    unfold devElems at hd
     obtain ⟨h1, h2⟩ := addDevs_nil _ _ hd
     simp only [WFVs] at hw
     unfold convIndexed
@@ -898,7 +788,7 @@ theorem convFields_exact (ps : JPs) (st : GT) (acc : GV) (hw : WFPs ps)
         simp only
         have h1' : devConv v ft = [] := by simpa [hf, hta] using h1
         rw [conv_exact v ft hw.1 h1']
-        cases ptrWrap Spec.leaf ft v (convB Spec.leaf v ft.base) with
+        cases ptrWrap ft v (convB Spec.leaf v ft.base) with
         | ok a => simp only [Res.bind]; exact convFields_exact r st _ hw.2 h2
         | rangeErr => rfl
         | typeErr => rfl
@@ -914,51 +804,31 @@ theorem call_exact (v : JV) (t : GT) (hw : WFV v) (hd : devConv v t = []) :
   unfold convertCallParameter Spec.convertCallParameter conv
   exact conv_exact v t hw hd
 
-theorem deferred_model_false (a : JV) (t : GT) (hd : devConv a t = []) : deferredPanic modelLeaf a t = false := by
-  unfold devConv at hd
-  by_cases hc : t.depth > 0 ∧ t.base.isAny = true ∧ (!a.isNullish) = true
-  · simp [hc] at hd
-  · unfold deferredPanic
-    by_cases h1 : t.depth > 0 <;> by_cases h2 : t.base.isAny = true <;> by_cases h3 : a.isNullish = true <;>
-      simp_all [modelLeaf]
-
-theorem deferred_spec_false (a : JV) (t : GT) : deferredPanic Spec.leaf a t = false := by
-  simp [deferredPanic, Spec.leaf]
-
 /-- all (argument, parameter type) pairs are well-formed and outside every call-path region -/
 def CleanArgs : List JV → List GT → Prop
   | a :: as, t :: ts => WFV a ∧ devConv a t = [] ∧ CleanArgs as ts
   | _, _ => True
 
 theorem convArgs_exact (args : List JV) : ∀ (ins : List GT), CleanArgs args ins →
-    convArgs modelLeaf args ins = convArgs Spec.leaf args ins ∧
-    deferredIn modelLeaf args ins = false ∧ deferredIn Spec.leaf args ins = false := by
+    convArgs modelLeaf args ins = convArgs Spec.leaf args ins := by
   induction args with
-  | nil => intro ins _; cases ins <;> simp [convArgs, deferredIn]
+  | nil => intro ins _; cases ins <;> simp [convArgs]
   | cons a as ih =>
     intro ins hc
     cases ins with
-    | nil => simp [convArgs, deferredIn]
+    | nil => simp [convArgs]
     | cons t ts =>
       obtain ⟨hw, hd, hrest⟩ := hc
-      obtain ⟨h1, h2, h3⟩ := ih ts hrest
-      have e1 := deferred_model_false a t hd
-      have e2 := deferred_spec_false a t
-      refine ⟨?_, ?_, ?_⟩
-      · simp only [convArgs, e1, e2, Bool.false_eq_true, if_false]
-        have := call_exact a t hw hd
-        unfold convertCallParameter Spec.convertCallParameter at this
-        rw [this, h1]
-      · simp [deferredIn, e1, h2]
-      · simp [deferredIn, e2, h3]
+      have := call_exact a t hw hd
+      unfold convertCallParameter Spec.convertCallParameter at this
+      simp only [convArgs, this, ih ts hrest]
 
 /-- **C16.call_exact for whole calls** (fixed signatures): with every argument outside the listed regions the Go
     callee receives exactly the parameter list the property text demands, or the script gets exactly the error it
     demands, for every signature and every argument count. -/
 theorem call_fixed_exact (ins : List GT) (args : List JV) (hc : CleanArgs args ins) :
     callWrapper modelLeaf ⟨ins, false⟩ args = callWrapper Spec.leaf ⟨ins, false⟩ args := by
-  obtain ⟨h1, h2, h3⟩ := convArgs_exact args ins hc
-  rw [arity_fixed, arity_fixed, h1, h2, h3]
+  rw [arity_fixed, arity_fixed, convArgs_exact args ins hc]
 
 -- non-vacuity: f([1, 2], {A: 3}) against func([]int8, struct{A int; B string `json:"bee"`})
 example : CleanArgs
@@ -1003,12 +873,7 @@ theorem store_exact_partial (v : JV) (t : GT) (hp : PrimNoF32 v)
     | num n =>
       cases n with
       | f32 x => exact absurd hp (by simp [PrimNoF32])
-      | f64 x =>
-        have hf : fracPositive x = false := by
-          cases h : fracPositive x
-          · rfl
-          · simp [devStore, h] at hdev
-        unfold toReflectValue; simp [hf, GT.base, convB]
+      | f64 x => unfold toReflectValue; simp [GT.base, convB]
       | int k i => unfold toReflectValue; simp [GT.base, convB]
     | undef => unfold toReflectValue; simp [GT.base, convB]
     | null => unfold toReflectValue; simp [GT.base, convB]
@@ -1022,12 +887,7 @@ theorem store_exact_partial (v : JV) (t : GT) (hp : PrimNoF32 v)
     | num n =>
       cases n with
       | f32 x => exact absurd hp (by simp [PrimNoF32])
-      | f64 x =>
-        have hf : fracPositive x = false := by
-          cases h : fracPositive x
-          · rfl
-          · simp [devStore, h] at hdev
-        unfold toReflectValue; simp [hf, GT.base, convB, jsToString, Spec.leaf]
+      | f64 x => unfold toReflectValue; simp [GT.base, convB, jsToString, Spec.leaf]
       | int k i => unfold toReflectValue; simp [GT.base, convB, jsToString, Spec.leaf]
     | undef => unfold toReflectValue; simp [GT.base, convB, jsToString]
     | null => unfold toReflectValue; simp [GT.base, convB, jsToString]
@@ -1038,8 +898,8 @@ theorem store_exact_partial (v : JV) (t : GT) (hp : PrimNoF32 v)
     cases v with
     | arr es => exact absurd hp (by simp [PrimNoF32])
     | obj ps => exact absurd hp (by simp [PrimNoF32])
-    | undef => simp [devStore] at hdev
-    | null => simp [devStore] at hdev
+    | undef => unfold toReflectValue; simp [GT.base, convB, exportV, Res.map, Res.bind, asAny, Spec.leaf]
+    | null => unfold toReflectValue; simp [GT.base, convB, exportV, Res.map, Res.bind, asAny, Spec.leaf]
     | num n => unfold toReflectValue; simp [GT.base, convB, exportV, Res.map, Res.bind, asAny, Spec.leaf]
     | bool b => unfold toReflectValue; simp [GT.base, convB, exportV, Res.map, Res.bind, asAny, Spec.leaf]
     | str s => unfold toReflectValue; simp [GT.base, convB, exportV, Res.map, Res.bind, asAny, Spec.leaf]
@@ -1059,7 +919,7 @@ theorem store_exact_partial (v : JV) (t : GT) (hp : PrimNoF32 v)
       | int k i =>
         have hs : Spec.sameNumber (.int k i) (ofInt i) = true := by
           cases h : Spec.sameNumber (.int k i) (ofInt i)
-          · simp only [devStore] at hdev; unfold toReflectValue at hdev; simp [toFloat, isOk, h] at hdev
+          · simp [devStore, h] at hdev
           · rfl
         unfold toReflectValue; simp [toFloat, GT.base, convB, Spec.leaf, Spec.convertNumeric, Res.map, Res.bind, hs]
 
@@ -1082,7 +942,7 @@ theorem spec_small_int (pk k : IK) (i : Int) :
 theorem small_cmp (s : Bool) (a : Nat) (ha : a < 2^53) :
     lt (.fin s a 0) negTwo63 = false ∧ lt two63 (.fin s a 0) = false ∧ lt two64 (.fin s a 0) = false ∧
     le two63 (.fin s a 0) = false ∧ le (.fin s a 0) negTwo63 = false ∧
-    lt (.fin s a 0) zero = decide (s = true ∧ a ≠ 0) := by
+    lt (.fin s a 0) zero = decide (s = true ∧ a ≠ 0) ∧ le two64 (.fin s a 0) = false := by
   cases s <;> simp [lt, le, cmpReal, alignInt, negTwo63, two63, two64, zero]
   all_goals (repeat' constructor)
   all_goals (try omega)
@@ -1129,7 +989,7 @@ theorem store_exact_small_int (pk k : IK) (i : Int) (hi : i.natAbs < 2^53) :
     toReflectValue (.num (.int pk i)) (.num (.i k)) = Spec.convertCallParameter (.num (.int pk i)) (.num (.i k)) := by
   rw [spec_small_int]
   have hof := ofInt_small' i hi
-  obtain ⟨c1, c2, c3, c4, c5, c6⟩ := small_cmp (decide (i < 0)) i.natAbs hi
+  obtain ⟨c1, c2, c3, c4, c5, c6, c7⟩ := small_cmp (decide (i < 0)) i.natAbs hi
   have hg := goInt64_small (decide (i < 0)) i.natAbs hi
   rw [signed_abs] at hg
   have hlo := lo_ge k
@@ -1147,10 +1007,11 @@ theorem store_exact_small_int (pk k : IK) (i : Int) (hi : i.natAbs < 2^53) :
         cases hn : i.natAbs with
         | zero => omega
         | succ n => simp [isZero]
-    cases pk <;> simp only [hv]
+    have hle : i ≤ 2^63 - 1 := by omega
+    cases pk <;> simp only [hv, hle, if_true]
   unfold toReflectValue
   simp only [Bool.false_eq_true, if_false]
-  cases k <;> simp only [toFloat, hof, toIntegerFloat_int, c1, c2, c3, c6, hg, hnum, Bool.or_self, Bool.false_eq_true, if_false]
+  cases k <;> simp only [toFloat, hof, toIntegerFloat_int, c1, c2, c3, c4, c6, c7, hg, hnum, Bool.or_self, Bool.false_eq_true, if_false]
   case i8 => exact range_if _ _ _
   case i16 => exact range_if _ _ _
   case i32 => exact range_if _ _ _
